@@ -426,7 +426,7 @@ func main() {
 	}
 	run.Set("rule", "contexts = curves{P-256,secp256k1} x keys{1,2,n-1,GeneratePrivateKey(seed)} x messages{empty,'abc',200 bytes} x hashers{SHA2-256,SHA2-384,SHA3-256,SHA3-384,Keccak-256,KMAC128/32,KMAC128/64, stub digests 0,n_P256,n_P256+1,n_k1,n_k1+1,2^256-1, 48-byte}. "+
 		"Per context: reference-made signatures with nonces {1,2,3,n-1} and their (r,n-s) twins; r,s over {0,1,n-1,n,n+1,2^256-1} (one and both coordinates); r/s swapped; every length 0..130 (prefix, suffix, zero-padded either side, widened r||s); 5 library Sign outputs; each under 3 public-key objects (sk.PublicKey, DecodePublicKey, DecodePublicKeyCompressed) for the 64-byte ones. "+
-		"All 512 single-bit flips of the nonce-2 signature (quick: one context per (curve,hasher) with key and message rotating; thorough: every context). Cross: the nonce-2 signature of every context verified under other contexts (quick: those differing in 1 or 2 of curve/key/message/hasher; thorough: all). "+
+		"Constructed signatures with small r and s under a RECOVERED public key Q = r^-1(sR - eG) (R = the curve points with the two smallest x; s in {1,2,3*2^100,2^256-n-1}) per curve x hasher: (r,s) and twin accepted, every alias r+n / s+n that fits in 32 bytes rejected by Verify and by SignatureFormatCheck. All 512 single-bit flips of the nonce-2 signature (quick: one context per (curve,hasher) with key and message rotating; thorough: every context). Cross: the nonce-2 signature of every context verified under other contexts (quick: those differing in 1 or 2 of curve/key/message/hasher; thorough: all). "+
 		"Every format-false candidate of a base set is swept over all keys x key objects x messages x hashers of the curve. Nil hasher and hashers (stub and KMAC128) of size 0..31 on Sign and Verify. "+
 		"Expected verdict always = refecdsa.Verify on the digest from our own ComputeHash call; SignatureFormatCheck compared with (len==64 and 1<=r,s<n) on every candidate. "+
 		"A case is distinct by (phase, curve, key, message (ignored for stub hashers), hasher, candidate); length-only and duplicate-digest cases are not counted as distinct.")
@@ -652,6 +652,92 @@ func main() {
 	})
 	phase("4 format-false sweep")
 	run.Set("format_false_pool", len(poolKeys))
+
+	// Phase 4b: signatures whose r AND s are small, so that the aliases r+n and s+n still fit in 32
+	// bytes. An honest signer produces them with probability ~2^-128, so they are constructed: R is the
+	// point with the smallest x-coordinate(s) on the curve (r = R.x), s is chosen, and the PUBLIC KEY is
+	// recovered as Q = r^-1 (s R - e G) (no private key exists in the harness). (r,s) and its twin
+	// (r,n-s) must verify; every alias with r+n or s+n (equal mod n, but not a valid encoding) must not.
+	type crafted struct{ ci, hi int }
+	var cr []crafted
+	for ci := range curves {
+		for hi := range hashers {
+			cr = append(cr, crafted{ci, hi})
+		}
+	}
+	ev.Par(len(cr), func(i int) {
+		cs, hs := curves[cr[i].ci], hashers[cr[i].hi]
+		c := cs.c
+		msg := msgs[1]
+		digest := hs.mk().ComputeHash(msg)
+		e := new(big.Int).Mod(c.DigestInt(digest), c.N)
+		a := newAcc()
+		defer a.flush()
+		found := 0
+		for x := int64(1); found < 2; x++ {
+			ry, ok := c.DecompressY(big.NewInt(x), x%2 == 1)
+			if !ok {
+				continue
+			}
+			found++
+			r := big.NewInt(x)
+			for _, sv := range []*big.Int{big.NewInt(1), big.NewInt(2), new(big.Int).Lsh(big.NewInt(3), 100), new(big.Int).Sub(two256m, c.N)} {
+				// Q = r^-1 (s R - e G)
+				tx, ty, inf := c.ScalarMult(r, ry, sv)
+				if e.Sign() != 0 {
+					gx, gy := c.ScalarBaseMult(new(big.Int).Sub(c.N, e))
+					if inf {
+						tx, ty, inf = gx, gy, false
+					} else {
+						tx, ty, inf = c.Add(tx, ty, gx, gy)
+					}
+				}
+				if inf {
+					continue
+				}
+				qx, qy, inf := c.ScalarMult(tx, ty, new(big.Int).ModInverse(r, c.N))
+				if inf || !c.Verify(qx, qy, digest, r, sv) {
+					run.Fatal("crafted small (r,s) signature does not verify under the recovered key in the reference (%s %s)", cs.name, hs.name)
+				}
+				raw := c.EncodeRaw(qx, qy)
+				pk, err := crypto.DecodePublicKey(cs.algo, raw)
+				if err != nil {
+					run.Violation("crafted:"+cs.name+":recovered-key-rejected", fmt.Sprintf("DecodePublicKey rejects a valid point: %v", err), map[string]any{"public_key_raw_hex": ev.Hex(raw)})
+					continue
+				}
+				rn, sn := new(big.Int).Add(r, c.N), new(big.Int).Add(sv, c.N)
+				twin := new(big.Int).Sub(c.N, sv)
+				for _, cd := range []struct {
+					n    string
+					r, s *big.Int
+					want bool
+				}{{"small-r-s", r, sv, true}, {"small-r-s-twin", r, twin, true}, {"r+n", rn, sv, false}, {"s+n", r, sn, false}, {"r+n,s+n", rn, sn, false}, {"r+n,twin", rn, twin, false}} {
+					if cd.r.BitLen() > 256 || cd.s.BitLen() > 256 {
+						continue
+					}
+					sig := sigBytes(cd.r, cd.s)
+					got, err := pk.Verify(sig, msg, hs.mk())
+					fgot, ferr := crypto.SignatureFormatCheck(cs.algo, sig)
+					a.counts["evaluations"]++
+					a.counts["crafted_small_rs_candidates"]++
+					rp := map[string]any{"kind": "crafted:" + cd.n, "curve": cs.name, "public_key_raw_hex": ev.Hex(raw), "message_hex": ev.Hex(msg), "hasher": hs.name, "digest_hex": ev.Hex(digest), "signature_hex": ev.Hex(sig), "expected": cd.want}
+					if err != nil || got != cd.want {
+						what := "accepts-invalid"
+						if cd.want {
+							what = "rejects-valid"
+						}
+						run.Violation(fmt.Sprintf("verify:%s:crafted-%s:%s:%s", cs.name, cd.n, hs.name, what),
+							fmt.Sprintf("Verify=%v,%v on the constructed signature %s (r and s small; aliases r+n, s+n are equal mod n but are not valid encodings), reference verdict %v", got, err, cd.n, cd.want), rp)
+					}
+					if ferr != nil || fgot != cd.want {
+						run.Violation(fmt.Sprintf("sfc:%s:crafted-%s:%v-expected-%v", cs.name, cd.n, fgot, cd.want), fmt.Sprintf("SignatureFormatCheck=%v,%v on %s", fgot, ferr, cd.n), rp)
+					}
+					a.distinct = append(a.distinct, fmt.Sprintf("p4b/%s/%s/%d/%s/%s", cs.name, hs.name, x, sv.Text(16), cd.n))
+				}
+			}
+		}
+	})
+	phase("4b crafted small r,s with recovered public keys")
 
 	// Phase 5: nil hasher and hashers of size 0..31
 	type guardCase struct{ ci, ki, mi int }
